@@ -267,3 +267,49 @@ def run(ctx):
         'preprocessor lines carry no tokens; OpenMP/OpenACC-style sentinel continuation (pragmas) is not interpreted',
         'exempt lines: only a trailing comment is beyond the width, or one token is itself longer than the width',
     ]
+
+
+def selftest(ctx):
+    """Binding demonstration: corrupt single recorded fields of accepted cases; TLC must reject with the matching clause."""
+    import copy
+    leaf = lambda k, n: {'k': k, 'n': n, 'items': [], 'sep': [], 'separable': True}
+    top = {'k': 'L', 'n': 0, 'items': [leaf('P', 3), leaf('Q', 6), leaf('P', 5), leaf('P', 3)], 'sep': [44, 32], 'separable': True}
+    good1 = jsl_case(top, [(16, {'c0': [32, 38], 'c1': [38, 32]})])
+    if len(good1['runs'][0]['out']) < 2:
+        raise MachineryError('selftest: the level (i) sample is not wrapped')
+    b = []
+    c = copy.deepcopy(good1); c['runs'][0]['out'][0] = c['runs'][0]['out'][0][:-1]; b.append(('continuation marker dropped', c, ('statement-split', 'tokens')))
+    c = copy.deepcopy(good1); c['runs'][0]['out'][0].insert(1, 32); b.append(('blank inserted into a name', c, ('tokens',)))
+    c = copy.deepcopy(good1)
+    l = next(x for x in c['runs'][0]['out'] if 39 in x)
+    l.insert(l.index(39) + 2, 32)
+    b.append(('blank inserted into a literal', c, ('tokens',)))
+    c = copy.deepcopy(good1); c['runs'][0]['width'] = 9; b.append(('width lowered below the printed lines', c, ('line-',)))
+    c = copy.deepcopy(good1); c['runs'][0]['out'].insert(1, [32, 38]); b.append(('line with a lone &', c, ('lone-ampersand',)))
+    c = copy.deepcopy(good1); c['flat'] = c['flat'][:-1]; b.append(('harness joins other items than described', c, ('machinery',)))
+    src = ("module kmod\ncontains\nsubroutine kernel(a, b)\ninteger, intent(inout) :: a, b\n"
+           "a = " + ' + '.join(['a*b'] * 40) + "\nprint *, 'some text', a  ! trailing\nend subroutine kernel\nend module kmod\n")
+    from loki import Sourcefile
+    from loki.backend.style import FortranStyle
+    sf = Sourcefile.from_source(src)
+    out, wide = sf.to_fortran(style=FortranStyle()), sf.to_fortran(style=FortranStyle(linewidth=WIDE))
+    good2 = {'lvl': 2, 'width': 132, 'wide': T.lines_codes(wide), 'out': T.lines_codes(out), 'gf': True, 'top': {}, 'flat': [], 'runs': []}
+    k = next(i for i, l in enumerate(good2['out']) if l and l[-1] == 38)
+    c = copy.deepcopy(good2); c['out'][k] = c['out'][k][:-1]; b.append(('continuation marker dropped (program)', c, ('tokens',)))
+    c = copy.deepcopy(good2); c['out'][k][20] = 120; b.append(('one character of the wrapped statement changed', c, ('tokens',)))
+    c = copy.deepcopy(good2); c['out'][k] = c['out'][k][:-2] + [32] * 10 + c['out'][k + 1][c['out'][k + 1].index(38) + 1:]; del c['out'][k + 1]
+    b.append(('two lines joined beyond the width', c, ('line-long',)))
+    c = copy.deepcopy(good2); c['gf'] = False; b.append(('gfortran verdict flipped', c, ('gfortran-rejects',)))
+    v = ctx.validate('Trace_LineWrap', 'Trace_LineWrap', [good1, good2] + [x[1] for x in b], shards=1,
+                     extra_env={'JAVA_TOOL_OPTIONS': '-Xss256m'})
+    if not v[0][0] or not v[1][0]:
+        raise MachineryError(f'selftest: an uncorrupted case is rejected: {v[0]} {v[1]}')
+    missed = []
+    for i, (name, _c, want) in enumerate(b, 2):
+        got = v[i][1]
+        hit = (not v[i][0]) and any(got.startswith(w) for w in want)
+        print(f"  {'rejected' if hit else 'MISSED (!)'}: {name}: {got}")
+        if not hit:
+            missed.append(name)
+    print(f'SELFTEST-FAILED C04: {missed}' if missed else f'SELFTEST-OK C04: {len(b)} corruptions rejected')
+    return 1 if missed else 0
